@@ -254,6 +254,31 @@ def run_property(ctx, prop, replay=None):
         mons = monitors(prop, c)
         ctx.fail(f"{prop}:traversal-correspondence", "the traversal (graph.py / node.py / runner.py) and the model disagree on a trace",
                  d, False)
+    if prop == "C01":
+        # the hypotheses of C01_available_at_start_single_worker (simple_b) on the exported single-worker graphs: which graphs the
+        # theorem covers; a single-worker graph without removable states / permanent objects and with own+shared in scope must meet them
+        from harness.common import coq_failing
+        single = [k for k, c in enumerate(cases) if len(c["spec"]["workers"]) == 1]
+        if single:
+            res = coq_failing(ctx, travgen.IMPORTS, "trav_case", [cases[k]["term"] for k in single], ["trav_simple"],
+                              shard=max(1, len(single) // 8 + 1), tag="simple", timeout=900)
+            outside = {single[j] for j in res["trav_simple"]}
+
+            def expected_simple(c):
+                sp = c["spec"]
+                scope = sp["node_params"].get("pool_scope", "").split()
+                removable = any(st.get("unset", "r")[0] == "f" for sts in sp["states"].values() for st in sts)
+                permanent = any(v.get("permanent") for v in sp["vms"].values())
+                return "own" in scope and "shared" in scope and not removable and not permanent
+            unexpected = [k for k in single if expected_simple(cases[k]) and k in outside]
+            ctx.obligation("hypotheses:simple_b-holds-of-plain-single-worker-graphs", "correspondence", not unexpected,
+                           f"{len(unexpected)} plain single-worker graphs do not meet simple_b")
+            for k in unexpected[:1]:
+                d = travgen.replay_data(cases[k])
+                d["obligation"] = "hypotheses:simple_b-holds-of-plain-single-worker-graphs"
+                ctx.fail("C01:theorem-hypotheses-not-met", "a plain single-worker graph does not meet the hypotheses (simple_b) of C01_available_at_start_single_worker", d, False)
+            ctx.coverage["graphs_covered_by_C01_available_at_start_single_worker"] = len(single) - len(outside)
+            ctx.coverage["single_worker_graphs"] = len(single)
     if prop == "C04":
         # the hypotheses of C04_mutual_exclusion on every exported graph: one owner per node, bridged classes agreeing on flat
         # (must always hold) and on the reuse scope (fails for mixed lxc/remote worker sets under a partial pool_scope: those
